@@ -1,8 +1,11 @@
 #!/bin/bash
-# Every behaviour-preserving patch under seeded/benign against every check (reduced run counts). Usage: checks/benign_all.sh [frac] [props]
-frac=${1:-8}; props=${2:-}
-for d in seeded/benign/b*-*; do
+# Every behaviour-preserving patch under seeded/benign against every check (reduced run counts).
+# Usage: checks/benign_all.sh [frac] [props|-] [patch ids...]
+frac=${1:-8}; props=${2:--}; shift; shift
+ids=${@:-$(ls seeded/benign | grep '^b')}
+for id in $ids; do
+  d=seeded/benign/$id
   echo "== $d"
-  if [ -n "$props" ]; then /venv/bin/python -m checks.benign $d/patch.diff --frac $frac --props $props | tail -1
+  if [ "$props" != "-" ]; then /venv/bin/python -m checks.benign $d/patch.diff --frac $frac --props $props | tail -1
   else /venv/bin/python -m checks.benign $d/patch.diff --frac $frac | tail -1; fi
 done
